@@ -29,7 +29,34 @@
 #include "bloch/compiler/semantics/built_ins.hpp"
 #include "bloch/support/error/bloch_error.hpp"
 
+#ifdef BLOCH_VERIF
+#include "bloch/support/verif_hooks.hpp"
+#endif
+
 namespace bloch::runtime {
+
+#ifdef BLOCH_VERIF
+    void verifReseed(std::uint64_t seed);  // qasm_simulator.cpp
+    namespace {
+        std::uint64_t verifMix(std::uint64_t z) {
+            z += 0x9E3779B97F4A7C15ull;
+            z = (z ^ (z >> 30)) * 0xBF58476D1CE4E5B9ull;
+            z = (z ^ (z >> 27)) * 0x94D049BB133111EBull;
+            return z ^ (z >> 31);
+        }
+        std::string verifStateJson(const QasmSimulator& sim) {
+            std::string st = "\"n\":" + std::to_string(sim.verifQubits()) + ",\"re\":[";
+            const auto& v = sim.verifState();
+            for (size_t i = 0; i < v.size(); ++i)
+                st += (i ? "," : "") + verif::fmtDouble(v[i].real());
+            st += "],\"im\":[";
+            for (size_t i = 0; i < v.size(); ++i)
+                st += (i ? "," : "") + verif::fmtDouble(v[i].imag());
+            st += "]";
+            return st;
+        }
+    }  // namespace
+#endif
 
     using compiler::builtInGates;
     using support::BlochError;
@@ -515,6 +542,21 @@ namespace bloch::runtime {
                              "RuntimeEvaluator is single-use; construct a new instance per run");
         }
         m_executed = true;
+#ifdef BLOCH_VERIF
+        {
+            auto& vh = verif::hooks();
+            int x = vh.execCounter.fetch_add(1);
+            vh.curExec = x;
+            vh.boundary = 0;
+            std::uint64_t sd = 0;
+            if (vh.seedSet) {
+                sd = verifMix(vh.seed ^ verifMix(static_cast<std::uint64_t>(vh.execBase + x)));
+                verifReseed(sd);
+            }
+            vh.emit("exec_begin", "\"seed\":" + std::to_string(sd) + ",\"logical\":" +
+                                      std::to_string(vh.execBase + x));
+        }
+#endif
         m_functions.clear();
         m_env.clear();
         m_measurements.clear();
@@ -555,7 +597,22 @@ namespace bloch::runtime {
             if (m_gcThread.joinable())
                 m_gcThread.join();
         }
+#ifdef BLOCH_VERIF
+        verif::hooks().triggerCode = 3;  // final
+#endif
         runCycleCollector();
+#ifdef BLOCH_VERIF
+        {
+            auto& vh = verif::hooks();
+            if (vh.stateMode >= 1 && m_sim.verifQubits() <= 14)
+                vh.emit("state", "\"final\":1," + verifStateJson(m_sim));
+            vh.emit("exec_end", "\"boundaries\":" + std::to_string(vh.boundary.load()) +
+                                    ",\"started\":" + std::to_string(vh.timerStarted.load()) +
+                                    ",\"exited\":" + std::to_string(vh.timerExited.load()) +
+                                    ",\"timer_requests\":" +
+                                    std::to_string(vh.timerRequests.load()));
+        }
+#endif
         // Ensure warnings appear before any normal echo output
         if (m_warnOnExit)
             warnUnmeasured();
@@ -1193,12 +1250,32 @@ namespace bloch::runtime {
         m_gcRequested = false;
         m_gcThreadStarted = true;
         m_gcThread = std::thread([this]() {
+#ifdef BLOCH_VERIF
+            struct VerifThreadCount {
+                VerifThreadCount() { verif::hooks().timerStarted.fetch_add(1); }
+                ~VerifThreadCount() { verif::hooks().timerExited.fetch_add(1); }
+            } verifThreadCount;
+#endif
             std::unique_lock<std::mutex> lock(m_gcMutex);
             while (!m_stopGc.load()) {
+#ifdef BLOCH_VERIF
+                m_gcCv.wait_for(lock,
+                                verif::hooks().timerPeriodUs > 0
+                                    ? std::chrono::microseconds(verif::hooks().timerPeriodUs)
+                                    : std::chrono::microseconds(50000),
+                                [this]() { return m_stopGc.load(); });
+#else
                 m_gcCv.wait_for(lock, std::chrono::milliseconds(50),
                                 [this]() { return m_stopGc.load(); });
+#endif
                 if (m_stopGc.load())
                     break;
+#ifdef BLOCH_VERIF
+                if (verif::hooks().timerDisabled)
+                    continue;
+                verif::hooks().timerRequests.fetch_add(1);
+                verif::hooks().lastRequestFromTimer = true;
+#endif
                 requestGc();
             }
         });
@@ -1257,6 +1334,47 @@ namespace bloch::runtime {
                 unreachable.push_back(obj);
             }
         }
+#ifdef BLOCH_VERIF
+        {
+            // External-holder audit: a swept object whose reference count exceeds the
+            // references found in heap objects' fields (plus the collector's own two
+            // temporaries) is still held by the interpreter's C++ state.
+            auto& vh = verif::hooks();
+            verif::GcEvent ev;
+            static const char* const kTriggers[] = {"natural", "timer", "forced", "final"};
+            ev.trigger = kTriggers[vh.triggerCode & 3];
+            ev.boundary = vh.boundary.load();
+            ev.objects = objects.size();
+            ev.swept = unreachable.size();
+            if (!unreachable.empty()) {
+                std::unordered_map<const Object*, long> internal;
+                for (auto& o : objects) {
+                    for (auto& f : o->fields) {
+                        if (f.type == Value::Type::Object && f.objectValue)
+                            internal[f.objectValue.get()]++;
+                        for (auto& e : f.objectArray)
+                            if (e)
+                                internal[e.get()]++;
+                    }
+                }
+                for (auto& obj : unreachable) {
+                    long ext = static_cast<long>(obj.use_count()) - 2 - internal[obj.get()];
+                    if (ext > 0) {
+                        ev.held++;
+                        if (!ev.holders.empty())
+                            ev.holders += ",";
+                        ev.holders += obj->cls ? obj->cls->name : "?";
+                    }
+                }
+            }
+            if (vh.onGc)
+                vh.onGc(ev);
+            vh.emit("gc", std::string("\"trigger\":\"") + ev.trigger + "\",\"objects\":" +
+                              std::to_string(ev.objects) + ",\"swept\":" +
+                              std::to_string(ev.swept) + ",\"held\":" + std::to_string(ev.held) +
+                              ",\"holders\":\"" + verif::jsonEscape(ev.holders) + "\"");
+        }
+#endif
         for (auto& obj : unreachable) {
             for (auto& f : obj->fields) f = {};
         }
@@ -1273,6 +1391,11 @@ namespace bloch::runtime {
                 outcome = m_lastMeasurement[q] ? "1" : "0";
             }
             m_trackedCounts[name][outcome]++;
+#ifdef BLOCH_VERIF
+            verif::hooks().emit("tracked", "\"key\":\"" + verif::jsonEscape(name) +
+                                               "\",\"outcome\":\"" + outcome +
+                                               "\",\"via\":\"object\"");
+#endif
         } else if (v.type == Value::Type::QubitArray) {
             bool allMeasured = true;
             std::string bits;
@@ -1289,6 +1412,11 @@ namespace bloch::runtime {
                 outcome = bits;
             }
             m_trackedCounts[name][outcome]++;
+#ifdef BLOCH_VERIF
+            verif::hooks().emit("tracked", "\"key\":\"" + verif::jsonEscape(name) +
+                                               "\",\"outcome\":\"" + outcome +
+                                               "\",\"via\":\"object\"");
+#endif
         }
     }
 
@@ -1602,6 +1730,30 @@ namespace bloch::runtime {
     }
 
     void RuntimeEvaluator::exec(Statement* s) {
+#ifdef BLOCH_VERIF
+        {
+            auto& vh = verif::hooks();
+            std::uint64_t b = vh.boundary.fetch_add(1);
+            if (vh.maskNaturalGc)
+                m_gcRequested = false;
+            if (vh.gcAt && vh.gcAt(b)) {
+                m_gcRequested = true;
+                vh.triggerCode = 2;  // forced
+            } else if (vh.lastRequestFromTimer.exchange(false)) {
+                vh.triggerCode = 1;  // timer
+            } else {
+                vh.triggerCode = 0;  // natural (allocation pressure / destroy)
+            }
+            const auto& simFlags = m_sim.verifMeasured();
+            for (size_t i = 0; i < m_qubits.size(); ++i) {
+                bool simFlag = i < simFlags.size() && simFlags[i];
+                if (m_qubits[i].measured != simFlag)
+                    vh.emit("flags", "\"idx\":" + std::to_string(i) + ",\"eval\":" +
+                                         std::to_string(m_qubits[i].measured ? 1 : 0) +
+                                         ",\"sim\":" + std::to_string(simFlag ? 1 : 0));
+            }
+        }
+#endif
         if (m_gcRequested.load())
             runCycleCollector();
         if (!s)
@@ -1898,6 +2050,11 @@ namespace bloch::runtime {
             Value v = eval(echo->value.get());
             if (m_echoEnabled)
                 m_echoBuffer.push_back(valueToString(v));
+#ifdef BLOCH_VERIF
+            if (verif::hooks().trace || verif::hooks().onEvent)
+                verif::hooks().emit("echo", "\"text\":\"" + verif::jsonEscape(valueToString(v)) +
+                                                "\"");
+#endif
         } else if (auto reset = dynamic_cast<ResetStatement*>(s)) {
             Value q = eval(reset->target.get());
             ensureQubitExists(q.qubit, reset->line, reset->column);
@@ -3116,6 +3273,10 @@ namespace bloch::runtime {
         m_qubits[idx].measured = false;
         if (idx >= static_cast<int>(m_lastMeasurement.size()))
             m_lastMeasurement.resize(idx + 1, -1);
+#ifdef BLOCH_VERIF
+        verif::hooks().emit("qalloc", "\"idx\":" + std::to_string(idx) + ",\"name\":\"" +
+                                          verif::jsonEscape(name) + "\"");
+#endif
         return idx;
     }
 
@@ -3130,6 +3291,9 @@ namespace bloch::runtime {
         unmarkMeasured(index);
         m_qubits[index].name.clear();
         m_freeQubitIndices.push_back(index);
+#ifdef BLOCH_VERIF
+        verif::hooks().emit("qfree", "\"idx\":" + std::to_string(index));
+#endif
     }
 
     void RuntimeEvaluator::ensureQubitExists(int index, int line, int column) {
@@ -3187,6 +3351,11 @@ namespace bloch::runtime {
                 }
                 std::string key = std::string("qubit ") + name;
                 m_trackedCounts[key][outcome]++;
+#ifdef BLOCH_VERIF
+                verif::hooks().emit("tracked", "\"key\":\"" + verif::jsonEscape(key) +
+                                                   "\",\"outcome\":\"" + outcome +
+                                                   "\",\"via\":\"scope\"");
+#endif
             } else if (v.type == Value::Type::QubitArray) {
                 bool allMeasured = true;
                 std::string bits;
@@ -3206,6 +3375,11 @@ namespace bloch::runtime {
                 }
                 std::string key = std::string("qubit[] ") + name;
                 m_trackedCounts[key][outcome]++;
+#ifdef BLOCH_VERIF
+                verif::hooks().emit("tracked", "\"key\":\"" + verif::jsonEscape(key) +
+                                                   "\",\"outcome\":\"" + outcome +
+                                                   "\",\"via\":\"scope\"");
+#endif
             }
         }
         m_env.pop_back();
